@@ -43,6 +43,8 @@ def run(rep):
     rep.run(nonmut)
     rep.run(predicates_and_roles)
     rep.run(component_aware)
+    rep.run(candidates)
+    rep.run(early_returns)
     rep.run(fallback_and_dispatch)
     rep.run(limits)
 
@@ -310,20 +312,33 @@ def fallback_and_dispatch(rep):
     bt = rep.f(SM, ENG + STRATS[2])
     defs = local_defs(bt.node)
     rets = returns_of(bt.node)
-    ok = None
-    if len(rets) == 2:
-        r0, r1 = rets
-        pm = parent_map(bt.node)
-        g0 = guards_of(pm, r0, bt.node)
-        src0 = origin(defs, r0.value)
-        ok = (len(g0) == 1 and g0[0][1] and norm(g0[0][0]) == norm(r0.value)
-              and isinstance(src0, ast.Call) and call_name(src0) == STRATS[1]
-              and isinstance(r1.value, ast.Call) and call_name(r1.value) == STRATS[0] and not guards_of(pm, r1, bt.node))
-        if ok:
-            for c, q in ((src0, STRATS[1]), (r1.value, STRATS[0])):
-                cal = rep.f(SM, ENG + q)
-                names = [norm(a) for a in c.args]
-                ok = ok and names == cal.params[: len(names)] and len(names) == len(cal.params)
+    pm = parent_map(bt.node)
+    prim = [nm for nm, ds in defs.items() for d_ in ds if d_.kind == "assign" and isinstance(d_.value, ast.Call) and call_name(d_.value) == STRATS[1]]
+    rep.need("SHAPE", len(prim), 1, "primary = <component-aware search>(...) in the bt strategy")
+    P0 = prim[0]
+    kinds = []
+    for r in rets:
+        gs = [(norm(t), s_) for t, s_ in guards_of(pm, r, bt.node, early=True)]
+        if isinstance(r.value, ast.Name) and r.value.id == P0:
+            ok_r = (P0, True) in gs
+            kinds.append("primary")
+            rep.ob("O6.5", "SHAPE", bt, ok_r, f"return <component-aware result> under {gs}",
+                   "the component-aware result is returned only when it is non-empty (an empty one must fall through to the exhaustive search)", node=r)
+        elif isinstance(r.value, ast.Call) and call_name(r.value) == STRATS[0]:
+            ok_r = set(gs) <= {(P0, False)}
+            kinds.append("all")
+            rep.ob("O6.5", "SHAPE", bt, ok_r, f"return <exhaustive search> under {gs}", "otherwise the exhaustive result is returned, unconditionally", node=r)
+        else:
+            kinds.append("other")
+            rep.ob("O6.5", "SHAPE", bt, False, r, "bt returns either the non-empty component-aware result or the exhaustive result, nothing else", node=r)
+    ok = sorted(set(kinds)) == ["all", "primary"]
+    if ok:
+        src0 = [d_.value for d_ in defs[P0] if d_.kind == "assign"][0]
+        r1 = [r.value for r in rets if isinstance(r.value, ast.Call) and call_name(r.value) == STRATS[0]][0]
+        for c, q in ((src0, STRATS[1]), (r1, STRATS[0])):
+            cal = rep.f(SM, ENG + q)
+            names = [norm(a) for a in c.args]
+            ok = ok and names == cal.params[: len(names)] and len(names) == len(cal.params)
     rep.ob("O6.5", "SHAPE", bt, ok, rets[0] if rets else "return",
            "bt returns the component-aware result when non-empty and the exhaustive result otherwise (same arguments)")
     # dispatch
@@ -404,7 +419,7 @@ def limits(rep):
                     what = "enumeration is cut short only by max_results (truncation)"
                 elif isinstance(ex, ast.Return):
                     empty = isinstance(ex.value, ast.List) and not ex.value.elts
-                    nocand = any(isinstance(t_, ast.UnaryOp) and isinstance(t_.op, ast.Not) and isinstance(t_.operand, ast.Name) and s_ for t_, s_ in gs)
+                    nocand = any(isinstance(t_, ast.Name) and not s_ for t_, s_ in gs)
                     ok = bool(gs) and empty and ("threshold" in txt or nocand)
                     what = "an early return inside the enumeration empties the result and is guarded by the threshold (or no candidates)"
                 else:
@@ -416,6 +431,42 @@ def limits(rep):
             okA = bool(apps) and not guards_of(pm, apps[0], lp)
             rep.ob("O6.5", "SHAPE", fi, okA, apps[0] if apps else lp, "every enumerated match is recorded (no filter, no de-duplication)",
                    node=apps[0] if apps else lp)
+
+
+def _size_rejection(test, defs, host="host", pattern="pattern"):
+    """True iff `test` is a disjunction of `<count>(pattern) > <count>(host)` for the same count (nodes or edges): the only
+    cheap rejections that are necessary conditions of a (non-induced) embedding"""
+    parts = test.values if isinstance(test, ast.BoolOp) and isinstance(test.op, ast.Or) else [test]
+    for t in parts:
+        if not (isinstance(t, ast.Compare) and len(t.ops) == 1 and isinstance(t.ops[0], (ast.Lt, ast.Gt))):
+            return False
+        small, big = (t.left, t.comparators[0]) if isinstance(t.ops[0], ast.Lt) else (t.comparators[0], t.left)
+        a, b = norm(origin(defs, small)), norm(origin(defs, big))  # a < b
+        ok = any(a == f"{host}.{f}()" and b == f"{pattern}.{f}()" for f in ("number_of_nodes", "number_of_edges", "order", "size")) \
+            or (a == f"len({host})" and b == f"len({pattern})")
+        if not ok:
+            return False
+    return True
+
+
+def early_returns(rep):
+    """function-level returns of the exhaustive strategy that come before the enumeration"""
+    fi = rep.f(SM, ENG + STRATS[0])
+    pm = parent_map(fi.node)
+    defs = local_defs(fi.node)
+    ss = M.sites(fi)
+    rep.need("R2", len(ss), 1, "matcher construction in the exhaustive strategy")
+    first = ss[0].call.lineno
+    n = 0
+    for r in [x for x in walk_local(fi.node) if isinstance(x, ast.Return) and x.lineno < first]:
+        n += 1
+        gs = guards_of(pm, r, fi.node, early=True)
+        ok = bool(gs) and isinstance(r.value, ast.List) and not r.value.elts and all(s_ and _size_rejection(t, defs) for t, s_ in gs)
+        rep.ob("O6.3", "FILTER", fi, ok, f"return {norm(r.value) if r.value is not None else None} under {[norm(t) for t, _ in gs]}",
+               "a rejection before the enumeration must be a necessary condition of a label-preserving monomorphism (pattern has more nodes / more edges); "
+               "degree sequences, equal sizes etc. are isomorphism criteria and empty valid result sets", node=r)
+    if n == 0:
+        rep.ob("O6.3", "FILTER", fi, True, "no early return", "the exhaustive strategy enumerates without a pre-screen", node=fi.node)
 
 
 MUTANTS = [
@@ -472,3 +523,98 @@ TWINS = [
          new="gm = GraphMatcher(G1=host, G2=pattern, node_match=node_match, edge_match=edge_match)"),
     dict(name="fallback condition mirrored", file=SM, old="        if hcc < pcc:\n", new="        if pcc > hcc:\n"),
 ]
+
+
+# ------------------------------------------------------------------ candidate collection of the component-aware strategy
+def candidates(rep):
+    """per pattern component: every host component that is large enough is tried, and the tag stored with a partial
+    embedding identifies that host component in the index space of THE host component list (the `used` set of the
+    back-tracking compares tags of different pattern components)."""
+    fi = rep.f(SM, ENG + STRATS[1])
+    defs = local_defs(fi.node)
+    pm = parent_map(fi.node)
+    HC = [nm for nm, ds in defs.items() for d_ in ds if d_.kind == "assign" and isinstance(d_.value, ast.ListComp)
+          and "connected_components(host)" in norm(d_.value.generators[0].iter)]
+    PC = [nm for nm, ds in defs.items() for d_ in ds if d_.kind == "assign" and isinstance(d_.value, ast.ListComp)
+          and "connected_components(pattern)" in norm(d_.value.generators[0].iter)]
+    rep.need("SHAPE", len(HC) + len(PC), 2, "host / pattern component lists")
+    HC, PC = HC[0], PC[0]
+    outer = [l for l in fi.node.body if isinstance(l, ast.For) and norm(l.iter) == PC]
+    rep.need("SHAPE", len(outer), 1, "loop over the pattern components")
+    ol = outer[0]
+    pc = norm(ol.target)
+    ss = [s for s in M.sites(fi) if any(x is s.call for x in ast.walk(ol))]
+    rep.need("R2", len(ss), 1, "matcher construction per pattern component")
+    s = ss[0]
+    apps = [(n, b) for n, b in pfind("$maps.append(($tag, $$m))", ol)]
+    rep.need("SHAPE", len(apps), 1, "<maps>.append((tag, mapping))")
+    tag = apps[0][1]["tag"]
+    # where does the tag come from?
+    tag_loops = [l for l in enclosing_loops(pm, apps[0][0], ol) if tag in {x.id for x in ast.walk(l.target) if isinstance(x, ast.Name)}]
+    ok_space = ok_graph = False
+    filt = []          # (test, sense, host-component name) conditions under which a host component is tried
+    breaks = []
+    dom = "?"
+    if tag_loops:
+        L = tag_loops[0]
+        hcn = None
+        em = pmatch(f"enumerate({HC})", L.iter)
+        if em is not None and isinstance(L.target, ast.Tuple) and norm(L.target.elts[0]) == tag:
+            # for i, hc in enumerate(host_ccs): ... (filter = guards of the matcher construction)
+            ok_space, hcn, dom = True, norm(L.target.elts[1]), f"enumerate({HC})"
+            filt = [(t, s_) for t, s_ in guards_of(pm, s.call, L, early=True)]
+            breaks = [b_ for b_ in walk_local(L) if isinstance(b_, ast.Break) and b_.lineno < s.call.lineno]
+        elif pmatch(f"range(len({HC}))", L.iter) is not None and norm(L.target) == tag:
+            ok_space, dom = True, f"range(len({HC}))"
+            filt = [(t, s_) for t, s_ in guards_of(pm, s.call, L, early=True)]
+        elif isinstance(L.iter, ast.Name) and norm(L.target) == tag:
+            cds = [d_ for d_ in defs.get(L.iter.id, []) if d_.kind == "assign"]
+            for d_ in cds:
+                m = pmatch(f"[$i for $i, $hc in enumerate({HC}) if $$c]", d_.value) or pmatch(f"[$i for $i, $hc in enumerate({HC})]", d_.value)
+                if m:
+                    ok_space, hcn, dom = True, m["hc"], f"[i for i, hc in enumerate({HC}) if ...]"
+                    filt = [(t, True) for t in d_.value.generators[0].ifs]
+                elif isinstance(d_.value, ast.List) and not d_.value.elts:
+                    # cand = []; for i, hc in enumerate(HC): <guards>; cand.append(i)
+                    for fl in [l2 for l2 in walk_local(ol) if isinstance(l2, ast.For) and pmatch(f"enumerate({HC})", l2.iter) is not None and isinstance(l2.target, ast.Tuple)]:
+                        i2, hc2 = [norm(e) for e in fl.target.elts]
+                        ap2 = [n for n, b in pfind(f"{L.iter.id}.append({i2})", fl)]
+                        if ap2:
+                            ok_space, hcn, dom = True, hc2, f"{L.iter.id}.append(i) for i, hc in enumerate({HC})"
+                            filt = [(t, s_) for t, s_ in guards_of(pm, ap2[0], fl, early=True)]
+                            breaks = [b_ for b_ in walk_local(fl) if isinstance(b_, ast.Break)]
+        g1 = s.g1
+        ok_graph = pmatch(f"{HC}[{tag}]", g1) is not None or (hcn is not None and norm(g1) == hcn and em is not None)
+        if not ok_graph and hcn is not None and norm(g1) == hcn:
+            ok_graph = False  # hc of a derived enumeration
+    rep.ob("O6.4", "R6d", fi, ok_space, f"tag `{tag}` ranges over {dom}",
+           "the tag stored with a partial embedding is the index of its host component in the host component list itself: the back-tracking compares tags of different "
+           "pattern components, so positions in a per-component filtered list are not comparable", node=apps[0][0])
+    rep.ob("O6.4", "R2", fi, ok_graph and norm(s.g2) == pc, s.call, "the matcher embeds this pattern component (G2) into the host component the tag names (G1)", node=s.call)
+    # the filter is the size condition, nothing stronger; no early break
+    from ..absval import Undecided, eval_expr
+    ok_f = True
+    why = []
+    sz_names = {nm for nm, ds in local_defs(ol).items() for d_ in ds if d_.kind == "assign" and norm(d_.value) == f"{pc}.number_of_nodes()"}
+    for t, sense in filt:
+        try:
+            for h in (1, 2, 3):
+                for p in (1, 2, 3):
+                    env = {f"{pc}.number_of_nodes()": p, f"len({pc})": p}
+                    env.update({nm: p for nm in sz_names})
+                    for hn in {x.id for x in ast.walk(t) if isinstance(x, ast.Name)} - sz_names - {pc}:
+                        env[f"{hn}.number_of_nodes()"] = h
+                        env[f"len({hn})"] = h
+                    env[f"{HC}[{tag}].number_of_nodes()"] = h
+                    keep = bool(eval_expr(t, env)) == sense
+                    if (h >= p) and not keep:
+                        ok_f = False
+                        why.append(f"{norm(t)} rejects |host comp|={h} >= |pattern comp|={p}")
+        except Undecided as exc:
+            ok_f = None
+            why.append(str(exc))
+            break
+    rep.ob("O6.4", "SHAPE", fi, ok_f, [norm(t) for t, _ in filt], "a host component is left out only if it is too small for the pattern component", {"why": why[:3]})
+    okb = all(any("max_results" in norm(t) for t, s_ in guards_of(pm, b_, ol) if s_) for b_ in breaks)
+    rep.ob("O6.4", "SHAPE", fi, okb, f"{len(breaks)} break(s) in the candidate scan", "the scan over host components is cut short only by the result limit (a `break` on the first too-small "
+           "component makes the result depend on the order in which the substrate's fragments are written)")
